@@ -306,6 +306,22 @@ func interleave(c *core.Ctx, fine bool) {
 					before = append(before, 0)
 				}
 			}
+			if c.Chance("earlierFailures", 1, 3) {
+				// history before the tasks start: some of these serializers already failed
+				// part-way on a broken destination in this process
+				for i, in := range insts {
+					if solo[i].failed || len(solo[i].out) == 0 {
+						continue
+					}
+					for rep := c.Int("earlierFailures.n", 1, 3); rep > 0; rep-- {
+						wp := core.WriterPlan{FailAt: c.Int("earlierFailures.at", 0, len(solo[i].out)-1), Short: c.Bool("earlierFailures.short")}
+						if _, _, pi := runInto(c, in, wp); pi != nil {
+							c.CheckTotal(in.name, 0, pi, 0)
+						}
+					}
+				}
+				c.Probe("interleaving after earlier failed serializations")
+			}
 			ntasks := c.Int("ntasks", 2, 8)
 			period := uint64(1)
 			if fine {
